@@ -328,8 +328,9 @@ func (b *Block) Value() (interface{}, error) {
 		if len(blockData) < 4 {
 			return nil, errors.New("cram: file header block too short")
 		}
-		end := binary.LittleEndian.Uint32(blockData[:4])
-		if uint64(end) > uint64(len(blockData)-4) {
+		// The length is converted before the addition: 4+end must not wrap in 32 bits.
+		end := int(binary.LittleEndian.Uint32(blockData[:4]))
+		if end > len(blockData)-4 {
 			return nil, fmt.Errorf("cram: header text length %d exceeds block data", end)
 		}
 		err = h.UnmarshalText(blockData[4 : 4+end])
